@@ -193,7 +193,7 @@ package internal
 //@   assert after-call SleepString#1: [sleepTextOfThisBucket C16] arg0 == &b.Signature
 //@   assert after-call createdByString#1: [creatorTextOfThisBucket C16] arg0 == pf && arg1 == &b.Signature
 //@   assert after-call routineColor#1: [colourByFirstAndMultiplicity C16] arg0 == p && (arg1 <==> b.First) && (arg2 <==> multipleBuckets)
-//@   assert after-call fmt.Sprintf#1: [headerShowsCountStateSleepLockAndCreator C16] len(arg1) == 5 && strof(arg1[0]) == col && intof(arg1[1]) == len(b.IDs) && strof(arg1[2]) == b.State && strof(arg1[4]) == p.EOLReset && strof(arg1[3]) == (sl != "" ? " [" + sl + "]" : "") + (b.Locked ? " [locked]" : "") + (cb != "" ? p.CreatedBy + " [Created by " + cb + "]" : "")
+//@   assert after-call fmt.Sprintf#1: [headerShowsCountStateSleepLockAndCreator C16] arg0 == "%s%d: %s%s%s\n" && len(arg1) == 5 && strof(arg1[0]) == col && intof(arg1[1]) == len(b.IDs) && strof(arg1[2]) == b.State && strof(arg1[4]) == p.EOLReset && strof(arg1[3]) == (sl != "" ? " [" + sl + "]" : "") + (b.Locked ? " [locked]" : "") + (cb != "" ? p.CreatedBy + " [Created by " + cb + "]" : "")
 //@ func (*Palette).GoroutineHeader
 //@   requires p != nil && g != nil
 //@   modifies nothing
@@ -208,11 +208,18 @@ package internal
 //@   assert after-call SleepString#1: [sleepTextOfThisGoroutine C16] arg0 == &g.Signature
 //@   assert after-call createdByString#1: [creatorTextOfThisGoroutine C16] arg0 == pf && arg1 == &g.Signature
 //@   assert after-call routineColor#1: [colourByFirstAndMultiplicity C16] arg0 == p && (arg1 <==> g.First) && (arg2 <==> multipleGoroutines)
-//@   assert after-call fmt.Sprintf#2: [raceNoteShowsKindAndAddress C16] g.RaceAddr != 0 && len(arg1) == 4 && strof(arg1[0]) == p.EOLReset && strof(arg1[1]) == p.Race && strof(arg1[2]) == (g.RaceWrite ? "write" : "read") && intof(arg1[3]) == g.RaceAddr
-//@   assert after-call fmt.Sprintf#1: [headerShowsIdStateSleepLockCreatorAndRace C16] len(arg1) == 5 && strof(arg1[0]) == col && intof(arg1[1]) == g.ID && strof(arg1[2]) == g.State && strof(arg1[4]) == p.EOLReset && strof(arg1[3]) == (sl != "" ? " [" + sl + "]" : "") + (g.Locked ? " [locked]" : "") + (cb != "" ? p.CreatedBy + " [Created by " + cb + "]" : "") + (g.RaceAddr != 0 ? rc : "")
+//@   assert after-call fmt.Sprintf#2: [raceNoteShowsKindAndAddress C16] arg0 == "%s%s Race %s @ 0x%08x" && g.RaceAddr != 0 && len(arg1) == 4 && strof(arg1[0]) == p.EOLReset && strof(arg1[1]) == p.Race && strof(arg1[2]) == (g.RaceWrite ? "write" : "read") && intof(arg1[3]) == g.RaceAddr
+//@   assert after-call fmt.Sprintf#1: [headerShowsIdStateSleepLockCreatorAndRace C16] arg0 == "%s%d: %s%s%s\n" && len(arg1) == 5 && strof(arg1[0]) == col && intof(arg1[1]) == g.ID && strof(arg1[2]) == g.State && strof(arg1[4]) == p.EOLReset && strof(arg1[3]) == (sl != "" ? " [" + sl + "]" : "") + (g.Locked ? " [locked]" : "") + (cb != "" ? p.CreatedBy + " [Created by " + cb + "]" : "") + (g.RaceAddr != 0 ? rc : "")
 //@ func (*Palette).callLine
 //@   requires p != nil && line != nil
 //@   modifies nothing
+//@   gvar fc string
+//@   gvar fcol string
+//@   update after-call formatCall#1: fc := ret0
+//@   update after-call functionColor#1: fcol := ret0
+//@   assert after-call formatCall#1: [sourceOfThisFrame C16] arg0 == pf && arg1 == line
+//@   assert after-call functionColor#1: [colourOfThisFrame C16] arg0 == p && arg1 == line
+//@   assert after-call fmt.Sprintf#1: [frameLineShowsPackageSourceFunctionAndArguments C16] arg0 == "    %s%-*s %s%-*s %s%s%s(%s)%s" && len(arg1) == 11 && strof(arg1[0]) == p.Package && intof(arg1[1]) == pkgLen && strof(arg1[2]) == line.Func.DirName && strof(arg1[3]) == p.SrcFile && intof(arg1[4]) == srcLen && strof(arg1[5]) == fc && strof(arg1[6]) == fcol && strof(arg1[7]) == line.Func.Name && strof(arg1[8]) == p.Arguments && ptrof(arg1[9]) == &line.Args && strof(arg1[10]) == p.EOLReset
 //@ func (*Palette).StackLines
 //@   requires p != nil && signature != nil
 //@   modifies nothing
